@@ -242,8 +242,12 @@ for fid, pairs in (('f26', [('integer', 'integer'), ('single', 'single'), ('doub
         # f26: standalone (the value clause on the snapped inputs is decidable: 16-bit operands / concrete inputs);
         # f17: not standalone -- its clause (Division by zero only for a zero divisor) is part of the quick `divide_*_valid`
         # harnesses over the whole domain, the value of the quotient on these inputs is the main (thorough) harness
+        # (the INTEGER / INTEGER instance needs 5 minutes of CBMC - two 16-bit operands through the float divider -, the long pole
+        #  of the quick checks of C01: thorough tier; its domain is covered in the quick tier by divide_integer_integer_valid for
+        #  the error clauses and by the two concrete-input instances below for the value clause)
         H('finding_%s_divide_%s_%s' % (fid, k1, k2), 'C01', 'divide', body,
-          extra=' expect=finding:%s%s' % (fid.upper(), ' standalone=1 timeout=1500' if fid == 'f26' else ''))
+          extra=' expect=finding:%s%s' % (fid.upper(), ' standalone=1 timeout=1500' if fid == 'f26' else ''),
+          tier='thorough' if (fid, k1, k2) == ('f26', 'integer', 'integer') else 'quick')
 
 # ------------------------------------------------------------------------------------------- modulo
 out.append('\n// ---------------------------------------------------------------------------------------------\n// modulo\n')
